@@ -348,16 +348,19 @@ func addRandomMidConnects(rg *rand.Rand, sc *scen.Scenario) {
 	_ = fmt.Sprint
 }
 
-// longLoopCases: runs of well over a thousand node visits — an inner work loop of k visits entered m times by an outer
+// longLoopCases: runs of well over a thousand (up to 22650) node visits — an inner work loop of k visits entered m times by an outer
 // loop (k*m + m visits on one level of the flattened machine, at most max(k, 2m) on any level of the nested one),
 // nested 0..2 further levels deep. However long a run is, it ends when the table says so. (Actions are taken from
 // scen.Alphabet, which is what the flattening construction knows.)
 func longLoopCases() []*scen.Scenario {
 	var out []*scen.Scenario
-	for _, mk := range [][2]int{{40, 40}, {3, 700}, {600, 2}, {1, 1500}} {
+	for _, mk := range [][2]int{{40, 40}, {3, 700}, {600, 2}, {1, 1500}, {150, 150}, {1, 20000}} {
 		m, k := mk[0], mk[1]
 		for depth := 0; depth <= 2; depth++ {
 			for _, kind := range []int{scen.KPlain, scen.KBase, scen.KFnBldAny} {
+				if m*k > 5000 && (kind != scen.KPlain || depth == 2) {
+					continue // the very long ones (tens of thousands of visits on one level) once per depth 0 and 1
+				}
 				worker := scen.NodeSpec{Kind: kind, N: 1}
 				for j := 0; j < m*k; j++ {
 					p := scen.Alphabet[0]
@@ -383,7 +386,7 @@ func longLoopCases() []*scen.Scenario {
 					nodes = append(nodes, scen.NodeSpec{Kind: scen.KFlow, N: 1, Flow: &scen.FlowSpec{Start: root}})
 					root = len(nodes) - 1
 				}
-				out = append(out, &scen.Scenario{Nodes: nodes, Root: root, Runs: 1, MaxCallbacks: 40000, UseFlowRun: depth == 1})
+				out = append(out, &scen.Scenario{Nodes: nodes, Root: root, Runs: 1, MaxCallbacks: 400000, UseFlowRun: depth == 1})
 			}
 		}
 	}
